@@ -22,10 +22,11 @@ Record quirks := {
   q_leaf_parent : bool;    (* #6  non-composite spread parent -> secondary error *)
   q_unwrap_obj : bool;     (* object literal for a list of input objects *)
   q_depth : bool;          (* overlap recursion bounded by the number of fields *)
-  q_noninput : bool }.     (* default value for a variable of non-input type *)
+  q_noninput : bool;       (* default value for a variable of non-input type *)
+  q_impl_features : bool }.  (* #30 getPossibleTypes lists only implementations the request can see *)
 Definition repaired : quirks :=
   {| q_descend := true; q_revisit_ok := true; q_nil_arg := true; q_leaf_parent := true;
-     q_unwrap_obj := true; q_depth := true; q_noninput := true |}.
+     q_unwrap_obj := true; q_depth := true; q_noninput := true; q_impl_features := true |}.
 
 (** a Go [range] over a map: some permutation of the entries *)
 Definition order := forall A : Type, list A -> list A.
@@ -593,11 +594,16 @@ Section Validator.
   Definition all_spread_names : list name := inspect spread_names_enter (fun s => s) (tree_doc D) [].
   Definition graph_fuel : nat := Datatypes.S (Datatypes.S (length all_spread_names + length (frag_names D))).
 
-  (** getPossibleTypes *)
+  (** getPossibleTypes: of an interface, the registered implementations whose required features are
+      enabled for the request (repair 0cebc28; before it: all of them) *)
+  Definition impl_visible (o : name) : bool :=
+    if q_impl_features q then
+      match raw_type S o with Some d => subset (t_req d) F | None => true end
+    else true.
   Definition possible_types (tn : name) : option (list name) :=
     match raw_body S tn with
     | Some (TObject _ _) => Some [tn]
-    | Some (TInterface _) => Some (match assoc tn (s_impls S) with Some l => l | None => [] end)
+    | Some (TInterface _) => Some (filter impl_visible (match assoc tn (s_impls S) with Some l => l | None => [] end))
     | Some (TUnion members) => Some members
     | _ => None
     end.
